@@ -678,7 +678,7 @@ def parse_strace(path, root):
 def run_mockery(ctx, cwd, args=(), env_extra=None, strace=False, timeout=600, cpu_limit=None, root=None):
     # every run of the tool is bounded in CPU time (a logical, load-independent measure; an ordinary run needs a few seconds): a run that spins is killed
     # by the kernel and shows up as a negative exit status, which no check takes for success. The wall-clock timeout stays a mere watchdog.
-    cpu_limit = cpu_limit or 200
+    cpu_limit = cpu_limit or min(200, max(40, timeout // 3))   # well below the wall-clock watchdog, so that a spinning run is decided by the logical measure
     env = scratch_env(env_extra)
     return run([ctx.mockery] + list(args), cwd=cwd, env=env, timeout=timeout,
                strace_root=(root or cwd) if strace else None, cpu_limit=cpu_limit, ctx=ctx)
